@@ -48,7 +48,10 @@ StarKeys(sizes) ==
 UseStar(G)      == Mode = "export" /\ ProductSize(G.shape) > KeyLimit
 DumpKeysAll(G)  == IF UseStar(G) THEN StarKeys(G.shape) ELSE AllKeys(G.shape)
 ReducedKeys(G)  == Tuples(G.shape, RedAlphabet)
-ValueAt(G, t)   == [shape |-> G.internal, data |-> [j \in 1..Prod(G.internal) |-> 10 * t + j]]
+(* every third value written to an array without internal shape is Python's None (NoneElem): a WRITTEN None is an       *)
+(* ordinary element (unmasked, has_index true), which an implementation testing `value is None` would confuse with absent *)
+ValueAt(G, t)   == IF G.internal = << >> /\ t % 3 = 2 THEN [shape |-> << >>, data |-> <<NoneElem>>]
+                   ELSE [shape |-> G.internal, data |-> [j \in 1..Prod(G.internal) |-> 10 * t + j]]
 
 PlanSeq == << <<3, 3>>, <<3, 2>>, <<3, 1>>, <<2, 2>>, <<2, 1>>, <<1, 1>> >>
 PlanOf(G) ==
